@@ -70,6 +70,8 @@ pub struct Cfg {
   pub invalidate: bool,
   pub kf: Vec<String>,
   pub is_async: bool,
+  /// sync cache only: TTL + stale-while-revalidate, the clock is advanced past the TTL by `adv` operations
+  pub swr: bool,
 }
 
 pub struct RunStat {
@@ -99,8 +101,16 @@ pub fn run(cfg: &Cfg) -> RunStat {
   let next_val = Arc::new(AtomicU32::new(100));
   let nv = next_val.clone();
   let ctl_l = ctl.clone();
+  let swr = cfg.swr;
+  let slow = 1 + (cfg.seed / 3) % 4;
+  let mut builder = CacheBuilder::<u32, u32>::new();
+  if swr {
+    fibre_cache::verif::freeze_clock(true);
+    fibre::verif::set_clock_offset_nanos(1_000_000_000_000);
+    builder = builder.time_to_live(Duration::from_millis(100)).stale_while_revalidate(Duration::from_secs(36_000));
+  }
   let cache = Arc::new(
-    CacheBuilder::<u32, u32>::new()
+    builder
       .unbounded()
       .shards(cfg.shards)
       .janitor_tick_interval(Duration::from_secs(3600))
@@ -108,8 +118,10 @@ pub fn run(cfg: &Cfg) -> RunStat {
       .loader(move |k: u32| {
         hist::join(gen_);
         hist::push(json!({"k":"lstart","key":k}));
-        // a slow loader: let the callers interleave
-        Controller::spin(&*ctl_l, std::panic::Location::caller());
+        // a slow loader: let the callers interleave (a refresh stays in flight for several steps)
+        for _ in 0..(if swr { slow } else { 1 }) {
+          Controller::spin(&*ctl_l, std::panic::Location::caller());
+        }
         let v = nv.fetch_add(1, Ordering::SeqCst);
         hist::push(json!({"k":"ldone","key":k,"v":v}));
         (v, 1)
@@ -133,6 +145,12 @@ pub fn run(cfg: &Cfg) -> RunStat {
         }
         let key = rng.random_range(1..=keys);
         let o = (tid as u32 + 1) * 1000 + i as u32 * 2 + 1;
+        if swr && rng.random_bool(0.2) {
+          // the clock passes the TTL of everything resident (one step: no yield point in between)
+          fibre::verif::advance_clock_nanos(150_000_000);
+          hist::push(json!({"k":"adv"}));
+          continue;
+        }
         if inval && rng.random_bool(0.4) {
           hist::push(json!({"k":"call","o":o,"op":"invalidate","key":key}));
           cache2.invalidate(&key);
